@@ -861,7 +861,13 @@ def unit_sample(ctx):
     dt = ctx.choose("dtype", ["None", "complex"] if ctx.tier == "quick" else DTYPES_T)
     off = ctx.choose("offset", list(OFFSETS))
     ptype = ctx.choose("ptype", ["tuple", "ndarray", "list"] + (["scalar"] if len(n) == 1 else []))
+    # boundary conditions do not change which cell contains a point (the upper face of a periodic axis is still in the last cell)
+    bc = ctx.choose("bc", ["", "periodic-all-axes", "dirichlet"]) if ptype == "tuple" else ""
     mesh = mk_mesh(n, geom)
+    if bc.startswith("periodic") and any(len(d) != 1 for d in mesh.region.dims):
+        raise engine.Skip()  # periodic directions are given as a string of one-letter axis names
+    if bc:
+        mesh = df.Mesh(region=mesh.region, n=mesh.n, bc="".join(mesh.region.dims) if bc.startswith("periodic") else bc)
     geo = Geo(mesh)
     vdt = "float" if dt == "None" else dt
     data = tdata(n, nvdim, vdt, ctx.seed, salt=1)
@@ -1050,16 +1056,30 @@ def unit_line(ctx):
     a = ctx.choose("p1", list(LINE_PTS))
     b = ctx.choose("p2", list(LINE_PTS))
     npts = ctx.choose("npoints", [2, 3, 5])
-    ptype = ctx.choose("ptype", ["tuple"] + (["scalar"] if len(n) == 1 else []))
+    ptype = ctx.choose("ptype", ["tuple", "float64-ndarray"] + (["scalar"] if len(n) == 1 else []))
     nd = len(n)
     mesh = mk_mesh(n, geom)
     geo = Geo(mesh)
     data = tdata(n, nvdim, "float", ctx.seed, salt=1)
     f = df.Field(mesh, nvdim=nvdim, value=data, vdims=None if vd is None else list(vd))
     p1, p2 = _line_point(geo, a), _line_point(geo, b)
-    arg1, arg2 = (tuple(p1), tuple(p2)) if ptype == "tuple" else (p1[0], p2[0])
+    if ptype == "tuple":
+        arg1, arg2 = tuple(p1), tuple(p2)
+    elif ptype == "float64-ndarray":
+        arg1, arg2 = np.array(p1, dtype=float), np.array(p2, dtype=float)
+    else:
+        arg1, arg2 = p1[0], p2[0]
     inst = ctx.key(drop=("geom", "vdims"))
     _check_line(ctx, f, geo, p1, p2, npts, arg1, arg2, nvdim, f"field.line({a}, {b}, n={npts})", inst)
+    if ptype == "float64-ndarray":
+        # the caller's end points are the caller's: unchanged after the call, and a second call with the same arrays
+        # samples the same line
+        ctx.check()
+        if not (np.array_equal(arg1, np.array(p1, dtype=float)) and np.array_equal(arg2, np.array(p2, dtype=float))):
+            ctx.fail("Field.line/end-point-arrays-of-the-caller-modified", f"p1 {p1} -> {arg1.tolist()}, p2 {p2} -> {arg2.tolist()}",
+                     instance=inst)
+            return
+        _check_line(ctx, f, geo, p1, p2, npts, arg1, arg2, nvdim, "second call with the same end-point arrays", inst)
 
 
 # points on cell faces as line ends: the last point p1 + (n-1)*(p2-p1)/(n-1) may round to one ulp outside the region
